@@ -1961,3 +1961,63 @@ Section Tagged.
       rewrite SN'. reflexivity.
   Qed.
 End Tagged.
+
+(* ====================================================================================== *)
+(* Part J: histories of switches on a float-valued curve *)
+Local Open Scope nat_scope.
+
+(* ---- histories: a float-valued curve after any sequence of switches is the curve switched once *)
+Section History.
+  Context {T : Type} `{Num T}.
+  Definition canon_nodes (id : name) (m : list (Z * T)) (o : adorder) : nodes T :=
+    match o with
+    | OZero => NsF m
+    | OOne => NsD (mapi (fun i kv => (fst kv, mkDual (snd kv) [var_tag id i] [n1])) m)
+    | OTwo => NsD2 (mapi (fun i kv => (fst kv, mkDual2 (snd kv) [var_tag id i] [n1] [[n0]])) m)
+    end.
+  Lemma curve_eta (c : curve T) : c = mkCurve (c_nodes c) (c_rule c) (c_id c) (c_base c).
+  Proof. destruct c; reflexivity. Qed.
+  Lemma set_order_canon (c : curve T) m o1 o2 : c_nodes c = canon_nodes (c_id c) m o1 ->
+    set_ad_order c o2 = mkCurve (canon_nodes (c_id c) m o2) (c_rule c) (c_id c) (c_base c).
+  Proof.
+    intros En.
+    destruct o1; cbn [canon_nodes] in En.
+    - destruct (set_order_tags c m En) as [A B].
+      destruct o2; cbn [canon_nodes].
+      + unfold set_ad_order. rewrite En. rewrite <- En. apply curve_eta.
+      + rewrite (curve_eta (set_ad_order c OOne)). destruct (set_order_fields c OOne) as (F1 & F2 & F3).
+        rewrite A, F1, F2, F3. reflexivity.
+      + rewrite (curve_eta (set_ad_order c OTwo)). destruct (set_order_fields c OTwo) as (F1 & F2 & F3).
+        rewrite B, F1, F2, F3. reflexivity.
+    - unfold set_ad_order. rewrite En. destruct o2; cbn [canon_nodes].
+      + f_equal. f_equal. unfold mapi. rewrite mapi_from_map.
+        rewrite (mapi_from_ext _ (fun _ kv => (fst kv, snd kv))) by (intros; reflexivity).
+        rewrite mapi_from_const. apply map_pair_id.
+      + rewrite <- En. apply curve_eta.
+      + f_equal. f_equal. unfold mapi. rewrite mapi_from_map. apply mapi_from_ext. intros; reflexivity.
+    - unfold set_ad_order. rewrite En. destruct o2; cbn [canon_nodes].
+      + f_equal. f_equal. unfold mapi. rewrite mapi_from_map.
+        rewrite (mapi_from_ext _ (fun _ kv => (fst kv, snd kv))) by (intros; reflexivity).
+        rewrite mapi_from_const. apply map_pair_id.
+      + f_equal. f_equal. unfold mapi. rewrite mapi_from_map. apply mapi_from_ext. intros; reflexivity.
+      + rewrite <- En. apply curve_eta.
+  Qed.
+  Lemma last_cons {A} (l : list A) : forall a d, last (a :: l) d = last l a.
+  Proof.
+    induction l as [|b l IH]; intros a d; [reflexivity|].
+    change (last (a :: b :: l) d) with (last (b :: l) d). rewrite (IH b d), (IH b a). reflexivity.
+  Qed.
+  Lemma fold_canon ops : forall (c : curve T) m o, c_nodes c = canon_nodes (c_id c) m o ->
+    fold_left set_ad_order ops c = mkCurve (canon_nodes (c_id c) m (last ops o)) (c_rule c) (c_id c) (c_base c).
+  Proof.
+    induction ops as [|o2 ops IH]; intros c m o En.
+    - cbn. rewrite <- En. apply curve_eta.
+    - cbn [fold_left]. rewrite (set_order_canon c m o o2 En).
+      rewrite (IH _ m o2) by reflexivity. cbn [c_id c_rule c_base]. rewrite last_cons. reflexivity.
+  Qed.
+  Theorem history_collapses ops (c : curve T) m : c_nodes c = NsF m ->
+    fold_left set_ad_order ops c = set_ad_order c (last ops OZero).
+  Proof.
+    intros En. rewrite (fold_canon ops c m OZero En). symmetry. apply (set_order_canon c m OZero). exact En.
+  Qed.
+End History.
